@@ -518,9 +518,33 @@ def sortcmp(tape, viol, keys, probes, oplog):
 
 
 # -------------------------------------------------------------------------------------------------- one-level twin
+class SwapNT(collections.namedtuple('SwapNTBase', ['lo', 'hi'])):
+    """namedtuple whose constructor is NOT the identity on its arguments (and not idempotent): rebuilding through the
+    constructor and rebuilding through tuple.__new__ / _make give different objects, so the twin's unflatten function must
+    take the same route as the engine."""
+    __slots__ = ()
+    calls = [0]
+
+    def __new__(cls, lo, hi):
+        cls.calls[0] += 1
+        return super().__new__(cls, hi, lo)
+
+
+class OneNT(collections.namedtuple('OneNTBase', ['v'])):
+    __slots__ = ()
+
+    def __new__(cls, v):
+        return super().__new__(cls, (v,))
+
+
 def onelevel(tape, viol, keys, probes, oplog):
     ctx = gen.swarm_ctx(tape, custom_classes=(U.CA, U.CB))
     tree = gen.gen_tree(tape, 2 + tape.draw(12, 'budget'), ctx)
+    special = tape.draw(5, 'ol-special')
+    if special == 3:
+        tree = SwapNT(ctx.leaf(), [ctx.leaf()])
+    elif special == 4:
+        tree = OneNT(tree)
     ns = ('', 'ns', 'other')[tape.draw(3, 'ol-ns')]
     nil = bool(tape.draw(2, 'ol-nil'))
     mode = tape.draw(3, 'ol-mode')
@@ -551,6 +575,17 @@ def onelevel(tape, viol, keys, probes, oplog):
         if one.type is not spec.type or one.kind != spec.kind:
             viol('twin-disagree', 'one-level:type', 'one-level (type, kind) = (%s, %s) but treespec says (%s, %s)' % (one.type, one.kind, spec.type, spec.kind))
         back = unflatten(metadata, children)
+        # the engine's rebuild of the same node from the same children (what the twin must agree with)
+        spec_one = optree.tree_structure(tree, is_leaf=lambda x: x is not tree, **kw)
+        try:
+            eng_back = spec_one.unflatten(children)
+            d0 = same(eng_back, back) if type(tree) not in (dict, defaultdict) else None
+        except Exception as e:  # noqa: BLE001
+            d0 = 'engine rebuild raised %s' % type(e).__name__
+        if d0:
+            viol('twin-disagree', 'one-level:unflatten-vs-engine', 'unflatten_func(metadata, children) of a %s differs from the engine\'s rebuild of the same children: %s' % (type(tree).__name__, d0))
+        if isinstance(tree, (SwapNT, OneNT)):
+            return  # their constructors are deliberately not round-trip safe; only twin-vs-engine is meaningful
         # the engine's counterpart for the same (metadata, children) input is a treespec built from that metadata, which
         # also yields sorted-key dicts; so the top-level key ORDER of plain dict / defaultdict is not compared here
         if type(tree) in (dict, defaultdict) and type(back) is type(tree):
